@@ -153,7 +153,7 @@ func runC04(c *Ctx) {
 	for a := 0; a < na; a++ {
 		ac := atts[a]
 		s := w.NewSess(fmt.Sprintf("att%d", a), "r1", ac.local, ac.qsize, ac.hello)
-		simrt.Go("actor:"+s.Name, func() {
+		simrt.GoIn(s.Party(), "actor:"+s.Name, func() {
 			defer func() { done <- a }()
 			switch ac.join {
 			case 0:
